@@ -90,6 +90,23 @@ def one_call_node(F, rep):
     rep.ob("ONE-CALL-NODE", "sub_assignable|openers", toks == {"Prime", "LeftParen"}, "both `'` and `(` dispatch to assignable_call (%s)" % sorted(toks), sa["sp"])
 
 
+def _all_pats(p):
+    out, todo = [], [p]
+    while todo:
+        q = todo.pop()
+        if not isinstance(q, dict):
+            continue
+        out.append(q)
+        for y in q.get("pats") or []:
+            todo.append(y)
+        for y in q.get("fields") or []:
+            todo.append(y.get("pat") if isinstance(y, dict) and "pat" in y and "k" not in y else y)
+        for k_ in ("pat", "sub"):
+            if isinstance(q.get(k_), dict):
+                todo.append(q[k_])
+    return out
+
+
 def arrow(F, rep):
     fn = F.fn(R + "assignable")
     rep.analysed(fn)
@@ -190,6 +207,33 @@ def arrow(F, rep):
                                          "a callee that is not a plain name loses its postfix (`3 -> (add, sub)[1](4)` is rejected while "
                                          "`(add, sub)[1](3, 4)` compiles)" if lv in rank and any(rank.get(level.get(t), -1) < rank[lv] for t in postfix)
                                          else "operators after the call are swallowed by it"), ac["sp"])
+    # .. and the call it finds there takes the value as its first argument whatever its callee is: every arm of the function that
+    # builds the arrow call which matches `Call(callee, args)` answers ArrowCall(value, callee, args) with that callee and those
+    # arguments (a special case for some callees - `a -> f(b)(c)` giving f(a, b)(c) - is a different meaning for the same text)
+    n_arms = 0
+    for pf in [F.fns[p_] for p_ in sorted(F.fns) if p_.startswith("sylt_parser::expression::arrow_call")]:
+        prm = {b["hid"]: b["name"] for q in pf["params"] for b in pat_bindings(q["pat"])}
+        for m_ in nodes(fn_body(pf), "Match"):
+            for arm_ in m_["arms"]:
+                for alt_ in pat_alternatives(arm_["pat"]):
+                    calls_ = [q for q in _all_pats(alt_) if (q.get("path") or "").endswith("AssignableKind::Call")]
+                    if not calls_:
+                        continue
+                    n_arms += 1
+                    binds = [b["hid"] for sub in (calls_[0].get("pats") or []) for b in pat_bindings(sub)]
+                    built = [c_ for c_ in nodes(arm_["body"], "Call") if (callee(c_) or "").endswith("AssignableKind::ArrowCall")]
+                    ok_ = False
+                    for c_ in built:
+                        a_ = [peel(x) for x in c_["args"]]
+                        if len(a_) == 3 and len(binds) == 2 and a_[1].get("hid") == binds[0] and a_[2].get("hid") == binds[1] and \
+                                any(x.get("hid") in prm for x in nodes(a_[0], "Path")):
+                            ok_ = True
+                    rep.ob("ARROW", "parser|call-takes-the-value-first#%d" % n_arms, ok_ and not arm_.get("guard"),
+                           "a call after `->` becomes ArrowCall(value, its callee, its arguments)" if ok_ and not arm_.get("guard") else
+                           "%s treats some calls after `->` differently (%s): for those `a -> f(b)` no longer means f(a, b) with f the "
+                           "callee that is written" % (last(pf["_path"]), "the arm is guarded" if arm_.get("guard") else
+                                                      "the arm does not answer ArrowCall(value, callee, args)"), line_of(arm_))
+    rep.floor("ARROW", "arms over a call after the arrow", n_arms, 1)
     rep.ob("ARROW", "prepended-is-lhs", ea == "self.expression(0)", "the prepended argument is the resolved left operand (%s)" % ea, line_of(a[1]))
 
 
